@@ -70,7 +70,7 @@ def build(rnd, pack, dcls):
     for _ in range(rnd.randint(2, 14)):
         ctx = rnd.choice(['text', 'text', 'text', 'unkarg', 'declarg', 'foot', 'head', 'item', 'env', 'inline',
                           'display', 'comment', 'skip', 'ltskip', 'decl', 'uenv', 'define', 'declenv', 'cell',
-                          'caption', 'nested_unk', 'mathtext', 'verb', 'group', 'usermacarg', 'theorem', 'inspect'])
+                          'caption', 'nested_unk', 'mathtext', 'verb', 'group', 'usermacarg', 'theorem', 'inspect', 'deftheorem'])
         n = rnd.choice(names)
         if ctx == 'text':
             parts.append('w ' + use(n) + ' w')
@@ -157,8 +157,14 @@ def build(rnd, pack, dcls):
         elif ctx == 'uenv' and envs:
             e = rnd.choice(envs)
             parts.append('\\begin{%s}%s w \\end{%s}' % (e, rnd.choice(['', '[o]', '{a}']), e))
-            if e not in exp:
+            if e not in exp and e not in defined:
                 exp.append(e)
+        elif ctx == 'deftheorem' and envs:
+            # from here on the environment is declared (in this document only: the worker process filters many
+            # documents that use the same names undeclared)
+            e = rnd.choice(envs)
+            parts.append('\\newtheorem{%s}{T}' % e)
+            defined.add(e)
         elif ctx == 'define':
             parts.append('\\newcommand{%s}[2]{D}' % n if rnd.random() < .5 else '\\def%s#1#2{D}' % n)
             defined.add(n)
